@@ -553,6 +553,18 @@ def inject(rng, lines, kind):
             return L, "invalid-use-before-assignment", first
         L.insert(2, "add a0, a0, t5")
         return L, "invalid-use-before-assignment", "add a0, a0, t5"
+    if kind == "overwrite-callee-saved-register" and fn_starts and rng.random() < 0.2:
+        # the callee-saved register is sp itself: a frame that is allocated and never released (round 8: the check iterated
+        # over a register set from which sp had been removed).  Reported on the allocation, the first change of sp.
+        f = rng.choice(fn_starts)
+        if f + 1 < len(L) and L[f + 1].startswith("addi sp, sp, -"):
+            n = int(L[f + 1].split("-")[1])
+            end = min([g for g in fn_starts if g > f] + [len(L)])
+            epi = [i for i in range(f + 2, end) if L[i] == "addi sp, sp, %d" % n]
+            if epi:
+                for i in reversed(epi):
+                    del L[i]
+                return L, "overwrite-callee-saved-register", L[f + 1], [f + 1]
     if kind == "overwrite-callee-saved-register" and fn_starts:
         f = rng.choice(fn_starts)
         # after the prologue (find first non sw/addi line)
